@@ -119,11 +119,11 @@ def extract(fdata, table, layouts, enc, blocked, expanded, via_csv):
         with drv.Watchdog(10.0):
             if via_csv:
                 out = io.StringIO()
-                mci_ipm_param_to_csv.mci_ipm_param_to_csv(io.BytesIO(fdata), out, table, config=layouts, in_encoding=enc,
+                mci_ipm_param_to_csv.mci_ipm_param_to_csv(drv.new_file(fdata), out, table, config=layouts, in_encoding=enc,
                                                           no1014blocking=not blocked, expanded=expanded)
                 rows = list(csv.DictReader(io.StringIO(out.getvalue())))
             else:
-                rd = mciipm.IpmParamReader(io.BytesIO(fdata), table, encoding=enc, param_config=layouts, blocked=blocked,
+                rd = mciipm.IpmParamReader(drv.new_file(fdata), table, encoding=enc, param_config=layouts, blocked=blocked,
                                            expanded=expanded)
                 rows = [dict(x) for x in rd]
     except BaseException as ex:  # noqa
@@ -228,6 +228,8 @@ def run(rep, wd, tier, seed):
     parts = core.split(list(range(n)), core.NCPU)
     from .isocheck import _pool
     outs = _pool(_drive, [(seed, p[0], p[-1] + 1) for p in parts])
+    from . import isocheck
+    outs += isocheck.mark_threaded(isocheck.threaded('harness.c18', '_drive', [(seed, 1000 + 3 * k, 1000 + 3 * k + 3) for k in range(8)], procs=2))
     traces = [t for o in outs for t in o]
     kinds = {}
     for t in traces:
